@@ -127,6 +127,10 @@ CONTENT = [
     ("nested", ["- a", "  - b"]),
     ("task", ["- [ ] a {% #id %}", "- [x] b"]),
     ("list-loose", ["- a", "", "- b"]),
+    # appended later: the last list line before the closing tag is indented by four or more columns
+    ("nested3", ["- a", "  - b", "    - c"]),
+    ("nested-wide", ["10. x", "    - y"]),
+    ("nested3-ol", ["1. a", "   1. b", "      1. c"]),
 ]
 
 
@@ -227,8 +231,8 @@ class TagBlocks(Space):
             elif op in lines and cl in lines:
                 i, j = lines.index(op), len(lines) - 1 - lines[::-1].index(cl)
                 inner = lines[i + 1:j]
-                first_is_block = kind in ("list", "olist", "table", "list-prose", "nested", "task", "list-loose")
-                last_is_block = kind in ("list", "olist", "table", "prose-list", "nested", "task", "list-loose")
+                first_is_block = kind in ("list", "olist", "table", "list-prose", "nested", "task", "list-loose", "nested3", "nested-wide", "nested3-ol")
+                last_is_block = kind in ("list", "olist", "table", "prose-list", "nested", "task", "list-loose", "nested3", "nested-wide", "nested3-ol")
                 if first_is_block and (not inner or inner[0] != ""):
                     viol.append(("iv:no-blank-after-open", {"input": text, "output": out}))
                 if last_is_block and (not inner or inner[-1] != ""):
